@@ -76,6 +76,68 @@ def _one_rotation_shipped(item):
         return item, None, traceback.format_exc()[-1200:]
 
 
+# real instructions on the shipped ISA databases: implicit-operand instructions (no written
+# operand at all), stack accesses, write-back addressing, store/load through equal addresses
+REAL = {
+    "x86": ["movl (%rdi,%rax,4), %eax", "cltq", "addq %rax, %rbx", "cltd", "movq %rdx, %rcx",
+            "cqto", "imulq %rcx, %rax", "pushq %rbx", "popq %rcx", "movq %rax, 8(%rsp)",
+            "movq 8(%rsp), %rdx", "incq %rax", "vzeroupper", "vaddpd %ymm1, %ymm2, %ymm1",
+            "subq $8, %rsp", "movq %rcx, (%rdi)", "addq $8, %rdi", "movq (%rdi), %rbx"],
+    "aarch64": ["ldr d1, [x1], #8", "ldr d2, [x1]", "fadd d3, d2, d1", "str d3, [x1, #8]",
+                "add x1, x1, #8", "ldr x2, [x1, #16]!", "mov x3, x1", "str d3, [x3]",
+                "ldp d4, d5, [x1], #16", "fmla v1.2d, v2.2d, v3.2d", "subs x4, x4, #1",
+                "b.ne .L1", "str d1, [x1], #8", "sub x1, x1, #8", "fadd d1, d4, d5",
+                "incd x4", "tst x4, x2", "csel x2, x4, x3, ne"],
+}
+
+
+def _rotations_real(item):
+    isa, arch, idxs, flags = item
+    lines = [REAL[isa][i] for i in idxs]
+    n = len(lines)
+    out = {"bad": [], "n": 0, "sig": None}
+    try:
+        mm, sem = _MODELS[arch]
+        base = None
+        for r in range(n):
+            rot = lines[r:] + lines[:r]
+            parser, kernel = dgfam.parsed_kernel(isa, rot)
+            sem.add_semantics(kernel)
+            g = drive.KernelDG(kernel, parser, mm, sem, timeout=-1, flag_dependencies=flags)
+            sig = _lcd_sig(kernel, g, r, n)
+            out["n"] += 1
+            if base is None:
+                base = sig
+                out["sig"] = (tuple(sorted(sig[0])), sig[1])
+            elif sig != base:
+                out["bad"].append((r, "rotation by %d: cycles %s (LCD %s) != unrotated %s (LCD %s)"
+                                   % (r, sorted(sig[0]), sig[1], sorted(base[0]), base[1])))
+    except Exception:
+        out["bad"].append((-1, traceback.format_exc()[-1200:]))
+    return item, out
+
+
+def _real_items(ctx, archs_x86, archs_a64):
+    items = []
+    for isa, archs in (("x86", archs_x86), ("aarch64", archs_a64)):
+        n = len(REAL[isa])
+        rng = list(range(n))
+        ts = list(itertools.product(rng, repeat=2)) + list(itertools.product(rng, repeat=3))
+        if ctx.thorough:
+            ts += list(itertools.product(rng[::2], repeat=4))
+        else:
+            # the four-instruction shapes: store behind a write-back access behind its load
+            ts += [t for t in itertools.product(rng[:6], repeat=4)]
+        for k, a in enumerate(archs):
+            for t in (ts if k == 0 else ts[::5]):
+                if len(set(t)) < len(t):
+                    continue   # repeated lines are legal but add nothing here
+                items.append((isa, a, t, False))
+                if k == 0 and len(t) <= 3:
+                    items.append((isa, a, t, True))
+    return items
+
+
 def run(ctx):
     res = core.Result()
     c05.setup(ctx, "c14")
@@ -123,6 +185,29 @@ def run(ctx):
     for a in names:
         mm = drive.MachineModel(arch=a)
         _MODELS[a] = (mm, drive.ArchSemantics(mm))
+    # generated kernels of real instructions on the shipped ISA databases
+    for isa in REAL:
+        dgfam.warm_parse_cache(isa, REAL[isa])
+    ritems = _real_items(ctx, archs_x86, archs_a64)
+    t0 = time.time()
+    rout = core.pmap(_rotations_real, core.rotate(ritems, ctx.seed))
+    res.extra["real_isa_part_s"] = round(time.time() - t0, 1)
+    res.extra["real_isa_kernels"] = len(ritems)
+    for (isa, arch, idxs, flags), o in rout:
+        res.states += 1
+        res.traces += o["n"]
+        res.transitions += max(0, o["n"] - 1)
+        res.outcomes.add(o["sig"])
+        if o["sig"] and o["sig"][0]:
+            res.nontrivial += 1
+        lines = [REAL[isa][i] for i in idxs]
+        for r, what in o["bad"]:
+            res.violations.append(core.Violation(
+                {"part": "real-isa", "isa": isa, "flags": flags,
+                 "kind": "exception" if r < 0 else "differs"},
+                "[%s on %s flags=%s] kernel %r: %s" % (isa, arch, flags, lines, what),
+                {"part": "real-isa", "isa": isa, "arch": arch, "idxs": list(idxs),
+                 "flags": flags, "kernel": lines, "what": what}))
     sitems = []
     max_lines = 10 ** 6 if ctx.thorough else 45
     for path, isa in c04.shipped_kernels():
@@ -173,6 +258,9 @@ def run(ctx):
     res.extra["shipped_rotations"] = len(sitems)
     res.rule = ("every rotation offset of every kernel: generated kernels of length 2-3 (thorough: 4) "
                 "over the C05 alphabet (register, flag, write-back dependencies) on synthetic models "
+                "generated kernels of length 2-4 over 18 real instructions per ISA on the shipped ISA "
+                "databases (implicit-operand instructions, stack accesses, write-back addressing, "
+                "store/load pairs) "
                 "and the marked bodies of all shipped example / test kernels on shipped models of "
                 "the ISA; differential oracle: cycles (member instructions mapped back to original "
                 "positions, latency) and LCD figure equal those of rotation 0; non-trivial = at "
@@ -187,6 +275,12 @@ def replay(ctx, payload):
     if r["part"] == "synthetic":
         c05.setup(ctx, "c14")
         _, o = _rotations_synth((r["family"], tuple(r["idxs"]), r["flags"]))
+    elif r["part"] == "real-isa":
+        drive.stage_and_parse(ctx, [r["arch"], "isa/x86", "isa/aarch64"])
+        mm = drive.MachineModel(arch=r["arch"])
+        _MODELS[r["arch"]] = (mm, drive.ArchSemantics(mm))
+        idxs = tuple(REAL[r["isa"]].index(l) for l in r["kernel"])
+        _, o = _rotations_real((r["isa"], r["arch"], idxs, r["flags"]))
     else:
         drive.stage_and_parse(ctx, [r["arch"], "isa/x86", "isa/aarch64"])
         mm = drive.MachineModel(arch=r["arch"])
